@@ -496,6 +496,9 @@ func (fr *frame) modularCall(fc *FuncContract, callee *ssa.Function, c *ssa.Call
 				vc.regHeap(n, ghostSorts[n])
 			}
 			st.heap[n] = vc.declareConst(n, vc.heapNames[n])
+			if inv := vc.ghostInvariant(n, st.heap[n]); inv != "" {
+				vc.assume("true", inv)
+			}
 			continue
 		}
 		if m == "*" {
@@ -565,7 +568,7 @@ func (fr *frame) havocTarget(mv T, st *state, pos string) {
 		ref := fmt.Sprintf("(s_arr %s)", mv.S)
 		fr.frameCheck("frame.call", ref, st, pos)
 		nv := vc.declareConst("hv", "(Array Int "+vc.sortOf(u.Elem())+")")
-		vc.heapSet(st, h, fmt.Sprintf("(store %s %s %s)", vc.heapGet(st, h), ref, nv))
+		vc.heapStoreRef(st, h, ref, nv)
 	case *types.Map:
 		ks, vs := vc.sortOf(u.Key()), vc.sortOf(u.Elem())
 		fr.frameCheck("frame.call", mv.S, st, pos)
@@ -659,7 +662,9 @@ func (fr *frame) doMakeClosure(x *ssa.MakeClosure, st *state) {
 }
 
 // closureAxiom: a closure under contract whose calls are pure behaves as its contract says:
-//   forall params :: requires ==> ensures[result := apply(closure, params)]
+//
+//	forall params :: requires ==> ensures[result := apply(closure, params)]
+//
 // with the captured variables read at creation time. Sound as long as the captured state is not
 // modified after the closure is created (listed as an assumption).
 func (fr *frame) closureAxiom(fn *ssa.Function, cv *closureVal, id string, st *state) {
@@ -749,6 +754,18 @@ func (fr *frame) doGo(x *ssa.Go, st *state) {
 	// fork rule: charge the spawned function like a call to its contract; the declared footprints of
 	// all workers forked so far must be pairwise disjoint (ghost counter "forked").
 	vc := fr.vc
+	// a variable captured by reference must not be written by the parent once the goroutine may run
+	if mc, ok := x.Common().Value.(*ssa.MakeClosure); ok {
+		for _, b := range mc.Bindings {
+			al, isAlloc := b.(*ssa.Alloc)
+			if !isAlloc {
+				continue
+			}
+			if storeReachableAfter(x, al) {
+				fr.obligeHere("forkjoin.capture", sanitize(al.Comment), st, "false", fr.pos(x.Pos()))
+			}
+		}
+	}
 	if callee := x.Common().StaticCallee(); callee != nil {
 		if fc := vc.P.contractFor(callee); fc != nil && fc.Footprint[0] != nil {
 			var args []T
@@ -928,7 +945,8 @@ func sigKey(sig *types.Signature) string {
 }
 
 // closureBodyAxiom: a loop-free closure without a contract is described by its own body:
-//   forall params :: apply(closure, params) == body(params)
+//
+//	forall params :: apply(closure, params) == body(params)
 func (fr *frame) closureBodyAxiom(fn *ssa.Function, cv *closureVal, id string, st *state) {
 	vc := fr.vc
 	if len(findLoops(fn)) > 0 || len(fn.Blocks) == 0 {
@@ -969,4 +987,57 @@ func (fr *frame) closureBodyAxiom(fn *ssa.Function, cv *closureVal, id string, s
 		vc.assume(st.reach, fmt.Sprintf("(forall (%s) (! %s :pattern (%s)))", strings.Join(binders, " "), body, app.S))
 	}
 	vc.assumedStd["loop-free closures without a contract are described by their body; calls through captured function values are pure; captured state is assumed unmodified after closure creation"] = true
+}
+
+// storeReachableAfter: does the function write the captured variable at a point reachable from the
+// go statement (later in the same block, or in any block reachable through the CFG incl. back edges)?
+func storeReachableAfter(g *ssa.Go, al *ssa.Alloc) bool {
+	isStoreTo := func(in ssa.Instruction) bool {
+		st, ok := in.(*ssa.Store)
+		if !ok {
+			return false
+		}
+		a := st.Addr
+		for {
+			switch x := a.(type) {
+			case *ssa.FieldAddr:
+				a = x.X
+				continue
+			case *ssa.IndexAddr:
+				a = x.X
+				continue
+			}
+			break
+		}
+		return a == ssa.Value(al)
+	}
+	blk := g.Block()
+	after := false
+	for _, in := range blk.Instrs {
+		if in == ssa.Instruction(g) {
+			after = true
+			continue
+		}
+		if after && isStoreTo(in) {
+			return true
+		}
+	}
+	seen := map[*ssa.BasicBlock]bool{}
+	stack := append([]*ssa.BasicBlock{}, blk.Succs...)
+	for len(stack) > 0 {
+		b := stack[len(stack)-1]
+		stack = stack[:len(stack)-1]
+		if seen[b] {
+			continue
+		}
+		seen[b] = true
+		for _, in := range b.Instrs {
+			// a join (wg.Wait) ends the window; conservatively we do not stop there
+			if isStoreTo(in) {
+				return true
+			}
+		}
+		stack = append(stack, b.Succs...)
+	}
+	return false
 }
